@@ -32,6 +32,12 @@ mut("c02b-drop-remaining", "C02", T, "                    pending.update = Updat
 mut("c02c-v2-export-without-pending", "C02", T, "        merge_pending_v2(encoder.to_vec(), self.store())", "        let _ = merge_pending_v2;\n        encoder.to_vec()", "C02.c", also=["C06"])
 mut("c02d-missing-ignores-ds", "C02", T, "        store.pending.is_some() || store.pending_ds.is_some()", "        store.pending.is_some()", "C02.d")
 
+mut("c02b2-missing-raised", "C02", T, "                        pending.missing.set_min(client, clock);", "                        pending.missing.set_max(client, clock);", "C02.b2")
+mut("c02g-parent-skip-unaware", "C02", U, "                    if store.blocks.is_missing(parent_id) {\n                        return Ok(Some(*parent_id));\n                    }\n                }\n                _ => {}",
+    "                    if !store.blocks.contains(parent_id) {\n                        return Ok(Some(*parent_id));\n                    }\n                }\n                _ => {}", "C02.g")
+mut("c02g-benign-bind-test", "C02", U, "                if store.blocks.is_missing(origin_left) {\n                    return Ok(Some(*origin_left));",
+    "                let gone = store.blocks.is_missing(origin_left);\n                if gone {\n                    return Ok(Some(*origin_left));", "", kind="benign")
+
 # ---------------------------------------------------------------- C03
 mut("c03a-unit-mismatch", "C03", "yrs/src/types/text.rs", "                            str.block_offset(remaining, encoding)\n", "                            remaining\n", "C03.a")
 mut("c03b-squash-drops-right-origin", "C03", B, "            && self.right_origin == other.right_origin\n", "", "C03.b")
